@@ -78,7 +78,7 @@ pub fn instantiate_matrix(opts: &Opts, st: &mut Stats, thorough: bool) -> Vec<Hi
         (json!("-0.01"), json!("feea")),
         (json!(".5"), json!("feea")),
     ];
-    let bid_forms: Vec<(Value, Value)> = vec![(Value::Null, Value::Null), (json!("0.02"), json!("feeb")), (json!("0.02"), Value::Null), (json!(""), json!(""))];
+    let bid_forms: Vec<(Value, Value)> = vec![(Value::Null, Value::Null), (json!("0.02"), json!("feeb")), (json!("0.02"), Value::Null), (json!(""), json!("")), (Value::Null, json!("feeb")), (json!("abc"), json!("feeb"))];
     let defects: Vec<(&str, Value)> = vec![
         ("none", Value::Null),
         ("name", json!("")),
